@@ -27,11 +27,32 @@ def obsKind : Obs → String
   | .logged _ => "clock"
   | .enqueued _ => "enq"
 
+/-- the last `N` entries -/
+def ring {α : Type} (N : Nat) (l : List α) : List α := l.drop (l.length - N)
+
+/-- command ids are ghost (no step looks at them) -/
+def Item.erase : Item → Item
+  | .cmd _ t => .cmd 0 t
+  | i => i
+
+def SPc.erase : SPc → SPc
+  | .got m => .got m.erase
+  | .logging t i => .logging t (i.map (fun _ => 0))
+  | .lockWait t i => .lockWait t (i.map (fun _ => 0))
+  | .writing t i => .writing t (i.map (fun _ => 0))
+  | p => p
+
 /-- forget ghost history the acceptor does not need (keeps the state set small); the log keeps the ring's window -/
 def strip (P : Params) (s : St) : St :=
-  { s with submitted := [], wire := [], log := s.log.drop (s.log.length - P.logSize), nextId := 0, discCalls := 0,
+  { s with queue := s.queue.map Item.erase, spc := s.spc.erase,
+           submitted := [], wire := [], log := ring P.logSize s.log, nextId := 0, discCalls := 0,
            madeAt := 0, probesStarted := 0, probesAtClear := 0, decisions := [], rxLines := [],
            closeUnpub := false, unpubCloseAt := 0, unpubClosers := [], unpubCloseReturned := false }
+
+/-- labels by which the library's threads (and the clock) move on their own; everything else is an input of the environment -/
+def isThreadLabel : Label → Bool
+  | .s | .r | .rGet _ | .cbRet | .u _ | .connectFailed | .rCb _ | .tick _ => true
+  | _ => false
 
 def dedup (l : List St) : List St := l.foldl (fun acc x => if acc.contains x then acc else acc ++ [x]) []
 
@@ -79,12 +100,15 @@ def advanceTo (P : Params) (hidden : List String) : Nat → Nat → List St → 
         some { s with now := target })
     dedup (there ++ advanceTo P hidden fuel t moved)
 
-def logRing (P : Params) (s : St) : List LogEntry := s.log.drop (s.log.length - P.logSize)
+def logRing (P : Params) (s : St) : List LogEntry := ring P.logSize s.log
 
 def onEvent (P : Params) (hidden : List String) (S : List St) (t : Nat) (e : Ev) : List St :=
-  let S := advanceTo P hidden 400 t S
+  -- (the filter only matters when `advanceTo` runs out of fuel: every state used below is at the event's time)
+  let S := (advanceTo P hidden 400 t S).filter (fun s => s.now == t)
   match e with
-  | .input l => dedup (S.filterMap (fun s => (step P s l).map (fun r => strip P r.1)))
+  | .input l =>
+    if isThreadLabel l then [] else      -- the environment cannot take the library's own steps
+    dedup (S.filterMap (fun s => (step P s l).map (fun r => strip P r.1)))
   | .output o =>
     if hidden.contains (obsKind o) then S else
     dedup (S.flatMap (fun s => (threadLabels s).filterMap (fun l => match step P s l with
